@@ -1255,7 +1255,15 @@ impl<'r> Builder<'r> {
                 }
                 3 => {
                     let v = self.rng.range(1, 3) as i128;
-                    let s = self.hex_lit(Some(24));
+                    // one time in four the script is given as a policy name (in a value position: its hash)
+                    let s = if !self.g.prog.policies.is_empty() && self.rng.chance(1, 4) {
+                        let p = self.policy_pref();
+                        let pn = self.g.prog.policies[p].name.clone();
+                        self.tag("witness-script-is-policy-name");
+                        self.pol_ref(pn, false)
+                    } else {
+                        self.hex_lit(Some(24))
+                    };
                     self.cur_tx.cardano.push(Cardano::PlutusWitness { version: E::Int(v), script: s });
                     self.tag("plutus-witness");
                 }
